@@ -86,8 +86,14 @@ func cmdDupNode(args []string) {
 
 				return
 			}
+			// Duplicates can only be told apart while both instances are part of the mesh. A link can be lost for
+			// reasons of its own (e.g. a neighbour's own updates overtaking each other on their way to the instance make
+			// it refuse the neighbour as "dropped_us"; memnet links are not re-dialled), so the verdict needs both
+			// instances connected for 10 s in a row; otherwise the scenario is void.
 			deadline := time.After(30 * time.Second)
 			laterDown := false
+			var bothSince time.Time
+			bothLong := false
 		waitLoop:
 			for {
 				select {
@@ -99,6 +105,24 @@ func cmdDupNode(args []string) {
 					break waitLoop
 				case <-time.After(50 * time.Millisecond):
 				}
+				if len(first.N.Status().Connections) > 0 && len(second.N.Status().Connections) > 0 {
+					if bothSince.IsZero() {
+						bothSince = time.Now()
+					}
+					if time.Since(bothSince) >= 10*time.Second {
+						bothLong = true
+					}
+				} else {
+					bothSince = time.Time{}
+				}
+			}
+			if !laterDown && !bothLong {
+				mu.Lock()
+				res.count("void_an_instance_lost_its_link")
+				mu.Unlock()
+				first.N.Shutdown()
+
+				return
 			}
 			time.Sleep(300 * time.Millisecond)
 			earlierAlive := true
